@@ -145,6 +145,9 @@ void COSyncHandler (CO_SYNC *sync)
         }
     }
 
+    if ((sync->Node->Nmt.Allowed & CO_PDO_ALLOWED) == 0) {
+        return;
+    }
     for (i = 0; i < CO_RPDO_N; i++) {
         if ((sync->RPdo[i] != 0) &&
             (sync->RFrm[i].Identifier != 0)) {
